@@ -33,11 +33,12 @@ The oracle uses the PLAN only (which names the harness created as what), not the
   (c) raw_yaml True -> the string itself, the file system is irrelevant; raw_yaml False + no such file -> FileNotFoundError
       naming the file, no parser call; raw_yaml True + not a str -> ValueError
   (d) a directory / a path through a file / a symlink loop / an unreadable file: the OS error propagates (raw_yaml None
-      or False)                       [FALSE for the subclasses of OSError with raw_yaml=None: finding F1]
+      or False), subclasses of OSError included (a directory given with raw_yaml=None is NOT parsed as YAML; repo fix D48)
   (e) `filename` is the recorded name whenever it is given
   (f) add_multiple_sources / Config.build = the sources one by one, scalars broadcast (a str is a scalar); a length mismatch is
       a ValueError naming the argument, with no parser call and no file opened
-  (g) after every call the builder's current file is None    [FALSE after a file that cannot be decoded: finding F2]
+  (g) after every call the builder's current file is None, also after a file that cannot be decoded (repo fix D47): the next
+      source without a name records no file name
   (h) the three ways of giving the same sources hand the same (text, name, safe) sequence to the parser
 plus: the safe flag in force is `(safe if safe is not None else builder default) and builder default and outer`, and
 `builder.get_current_file()` equals `ConfigNode._default_filename` inside every parser call."""
@@ -49,8 +50,6 @@ import awesomeyaml.builder as aybuilder
 VBASE_S = os.path.realpath(tempfile.gettempdir())
 VROOT_S = posixpath.join(VBASE_S, 'AYC06SRCROOT')
 
-KEY_F1 = 'guess-oserror-subclass-fallback'
-KEY_F2 = 'current-file-kept-after-read-error'
 
 # ------------------------------------------------------------------------------------------------
 # pools
@@ -145,7 +144,7 @@ def corpus():
             out.append(base_case([A(s, raw, None), A(s, raw, 'given.yaml', False)]))
     out.append(base_case([A(['path', p], raw, fn) for p in ('f0.yaml', '', 'sub//g.yaml', 'nofile.yaml', '~/h.yaml') for raw in (None, False, True) for fn in (None, 'p.yaml')]))
     out.append(base_case([A(['fobj', KEEP], raw, fn) for raw in (None, False, True) for fn in (None, 'o.yaml')] + [A(['fopen', 'f1.yaml']), A(['fopen', 'crlf.yaml'], False, 'n')]))
-    # the two recorded findings: F1 (a directory / a path through a file falls back to YAML), F2 (a name kept after a failed read)
+    # witnesses of repo fixes D48 (a directory / a path through a file given with raw_yaml=None raises) and D47 (no name is kept after a failed read)
     out.append(base_case([A('adir'), A('adir', False), A('f0.yaml/x'), A('d: 1', None, 'n.yaml')]))
     out.append(base_case([A('bin.yaml'), A('x: 1', True), A('y: 2', True)]))
     out.append(base_case([A('noperm.yaml'), A('noperm.yaml', False)]))
@@ -261,7 +260,7 @@ def _plan_kind(case, s, root):
     return ('nofile',)
 
 def _expect_one(case, root, src, raw, fname, safe, bdef, outer):
-    """spec of ONE add_source from the plan: ('call', text, name, safe, fobj) | ('err', {...}) | ('F1', {...}, fallback call) | ('F2', {...}) | None"""
+    """spec of ONE add_source from the plan: ('call', text, name, safe, fobj) | ('err', {...}) | None"""
     sf = bool((safe if safe is not None else bdef) and bdef and outer)
     kind = src[0]
     if raw and kind != 'str':
@@ -283,34 +282,19 @@ def _expect_one(case, root, src, raw, fname, safe, bdef, outer):
         return ('err', {'err': 'OSError', 'errno': 40, 'file': x})
     if pk[0] in ('dir', 'notdir', 'unread'):
         e = {'err': {'dir': 'IsADirectoryError', 'notdir': 'NotADirectoryError', 'unread': 'PermissionError'}[pk[0]], 'file': x}
-        return ('err', e) if raw is not None else ('F1', e, ('call', s, fname, sf, False))
+        return ('err', e)
     if pk[0] == 'bin':
-        return ('F2', {'err': 'UnicodeDecodeError'})
+        return ('err', {'err': 'UnicodeDecodeError'})
     if pk[0] == 'nul':
         return ('err', {'err': 'ValueError', 'what': 'open'})
     return None
 
 def _check_seq(case, root, label, per_source, got, bdef, outer, complete=True):
-    """per_source: [(src, raw, fname, safe)..] given one by one; got: {'res','calls'(full records),'cur'}.  The messages: recorded
-    findings met on the way (F1: the code goes on, so does the check) and the first other discrepancy, if any."""
+    """per_source: [(src, raw, fname, safe)..] given one by one; got: {'res','calls'(full records),'cur'}.  The first discrepancy, as a list."""
     calls, i, msgs = got['calls'], 0, []
     for (src, raw, fname, safe) in per_source:
         exp = _expect_one(case, root, src, raw, fname, safe, bdef, outer)
         if exp is None:
-            return msgs
-        if exp[0] == 'F1':
-            if i < len(calls) and (calls[i]['text'], calls[i]['name']) == (exp[2][1], exp[2][2]):
-                msgs.append(f'F1: {label}: open({src[1]!r}) raises {exp[1]["err"]} but with raw_yaml=None the error does not propagate: '
-                            f'the NAME is parsed as YAML text')
-                exp = exp[2]
-            else:
-                exp = ('err', exp[1])
-        if exp[0] == 'F2':
-            if got['res'] != exp[1] or len(calls) != i:
-                return msgs + [f'{label}: {src[1]!r} is not UTF-8: expected UnicodeDecodeError and no parser call, got {got["res"]}, {len(calls) - i} call(s)']
-            if got['cur'] is not None:
-                msgs.append(f'F2: {label}: after the failed read of {src[1]!r} the builder keeps current file {got["cur"]!r}; '
-                            f'the next source without a name inherits it')
             return msgs
         if exp[0] == 'err':
             if len(calls) != i or got['res'] != exp[1]:
@@ -427,28 +411,23 @@ def run_sources(case):
         steps_obs, checks, msteps = [], [], []
         bdef, outer = case['bdef'], case['outer']
         for k, step in enumerate(case['steps']):
-            api, label, n0 = step['api'], f'step {k} {step["api"]}', len(checks)
-            fresh = api not in ('add_source', 'add_multiple') or shared._current_file is None      # the builder carries no stale name into this step
+            api, label = step['api'], f'step {k} {step["api"]}'
             if api == 'add_source':
                 state['delegate'] = True
-                before = shared._current_file
                 res = call(lambda: shared.add_source(mk(step['src']), raw_yaml=step['raw'], filename=_sub(step['filename'], real), safe=step['safe']), api)
                 o = snapshot(res, shared, api)
                 steps_obs.append(o)
                 msteps.append(dict(step, src=src_model(step['src']), filename=_sub(step['filename'], real)))
-                if before is None:
-                    checks.extend(_check_seq(case, real, label, [(src_model(step['src']), step['raw'], _sub(step['filename'], real), step['safe'])], o, bdef, outer))
+                checks.extend(_check_seq(case, real, label, [(src_model(step['src']), step['raw'], _sub(step['filename'], real), step['safe'])], o, bdef, outer))
             elif api == 'add_multiple':
                 state['delegate'] = True
-                before = shared._current_file
                 res = call(lambda: shared.add_multiple_sources(*[mk(s) for s in step['sources']], raw_yaml=_barg_py(step['raw'], real),
                                                                filename=_barg_py(step['filename'], real), safe=_barg_py(step['safe'], real)), api)
                 o = snapshot(res, shared, api)
                 steps_obs.append(o)
                 msteps.append({'api': api, 'sources': [src_model(s) for s in step['sources']], 'raw': _barg_model(step['raw'], real),
                                'filename': _barg_model(step['filename'], real), 'safe': _barg_model(step['safe'], real)})
-                if before is None:
-                    checks.extend(_check_multi(case, real, label, step, [src_model(s) for s in step['sources']], o, bdef, outer, ('raw', 'filename', 'safe')))
+                checks.extend(_check_multi(case, real, label, step, [src_model(s) for s in step['sources']], o, bdef, outer, ('raw', 'filename', 'safe')))
             elif api == 'config_build':
                 state['delegate'] = False
                 del created[:]
@@ -495,10 +474,7 @@ def run_sources(case):
                 for c in o['calls']:
                     if c['name'] != c['dfname']:
                         checks.append(f'{label}: builder.get_current_file() is {c["name"]!r} but ConfigNode default file name is {c["dfname"]!r} inside the parser call')
-                if o['cur'] is not None and fresh and not any(x.startswith('F2:') for x in checks[n0:]):
-                    if _plan_kind(case, o['cur'], real) == ('bin',):
-                        checks.append(f'F2: {label}: after the failed read of {o["cur"]!r} the builder keeps it as current file; the next source without a name inherits it')
-                        continue
+                if o['cur'] is not None:
                     checks.append(f'{label}: after the call the builder\'s current file is {o["cur"]!r}, not None: a later source without a name inherits it')
 
         # what the model is given: the file system as `open` shows it, the parser on every candidate text
@@ -637,12 +613,9 @@ def compare(case, io, mo):
 
 def oracle(case, io, ans):
     checks = io.get('checks') or []
-    other = [c for c in checks if not c.startswith(('F1:', 'F2:'))]
-    return (other or checks or [None])[0]
+    return checks[0] if checks else None
 
 def finding_key(case, desc):
-    if desc and desc.startswith('F1:'): return KEY_F1
-    if desc and desc.startswith('F2:'): return KEY_F2
     return None
 
 def nontrivial(case, io):
@@ -671,8 +644,6 @@ def features(case, io):
         for nm in ('raw', 'filename', 'safe'):
             if isinstance(st.get(nm), dict):
                 f.add(f'src:{nm}:' + ('scalar' if 'scalar' in st[nm] else 'seq' + ('' if len(st[nm]['seq']) == len(st.get('sources', [])) else '-mismatch')))
-    for c in (io.get('checks') or []) if isinstance(io, dict) else []:
-        f.add('src:finding:' + c[:2])
     return sorted(f)
 
 def shrink(case):
